@@ -7,6 +7,7 @@ package client
 
 import (
 	"sync/atomic"
+	"time"
 )
 
 // VerifTabEntry is one entry of a batchCommandsClient.batched table.
@@ -189,5 +190,20 @@ func VerifStreamExists(h interface{}, conn string, host string) bool {
 		_, ok := bc.forwardedClients[host]
 		return ok
 	}
+	return true
+}
+
+// VerifFireIdleTimer makes the idle timer of the pool serving addr expire after d, as if no request had arrived for
+// idleTimeout (a constant of 3 minutes that cannot be configured). This is fault injection like a failpoint: it does
+// not change what the code does when the timer fires (batchSendLoop marks the batchConn idle, notifies the RPCClient
+// and returns; the next request triggers recycleIdleConnArray).
+func VerifFireIdleTimer(c *RPCClient, addr string, d time.Duration) bool {
+	c.RLock()
+	pool, ok := c.connPools[addr]
+	c.RUnlock()
+	if !ok || pool == nil || pool.batchConn == nil {
+		return false
+	}
+	pool.batchConn.idleDetect.Reset(d)
 	return true
 }
